@@ -143,14 +143,21 @@ def pack(rows, widths, per_chunk):
     return chunks
 
 
-def lean_array(name, chunks, doc):
-    lines = ["/-- %s -/" % doc, "def %s : Array Nat := #[" % name]
-    body = []
-    for c in chunks:
-        body.append("  0x%x" % c)
-    lines.append(",\n".join(body))
-    lines.append("]")
-    return "\n".join(lines)
+def lean_chunked(name, rows, widths, per_chunk, doc):
+    """`name i` = the Nat literal holding rows [i*per_chunk, (i+1)*per_chunk), selected by a balanced tree of
+    `cond (Nat.ble k i)` decisions on literals (`Nat.ble` on literals is one GMP-accelerated kernel step).  (Inside the kernel, list/array indexing costs milliseconds per access and a
+    single 900-kbit literal takes the parser most of a minute; a decision tree over medium-sized literals costs
+    microseconds on both counts.)"""
+    chunks = pack(rows, widths, per_chunk)
+
+    def tree(lo, hi, ind):
+        pad = " " * ind
+        if hi - lo == 1:
+            return "%s0x%x" % (pad, chunks[lo])
+        mid = (lo + hi) // 2
+        return "%scond (Nat.ble %d i)\n%s\n%s" % (pad, mid, tree(mid, hi, ind + 1).replace(pad + " ", pad + " (", 1) + ")", tree(lo, mid, ind + 1).replace(pad + " ", pad + " (", 1) + ")")
+
+    return "/-- %s (%d rows per literal) -/\ndef %s (i : Nat) : Nat :=\n%s" % (doc, per_chunk, name, tree(0, len(chunks), 2))
 
 
 TEMPLATE_HEAD = r'''/-!
@@ -204,20 +211,30 @@ def certGt (yn yd a pn pd : Nat) : Bool :=
   decide (pn ^ 32 * gDen a ^ 2523 < gNum a ^ 2523 * pd ^ 32)
 
 /-! ## Tie points `j + 1/2`, `j = 0..4094`
-row `j` = `(yDown, aDown, aUp, yUp)`, packed 68 + 44 + 44 + 68 bits, 32 rows per chunk -/
+row `j` = `(yDown, aDown, aUp, yUp)`, packed 68 + 44 + 44 + 68 bits; 64 rows per literal -/
 '''
 
 TEMPLATE_MID = r'''
-def bndRow (j : Nat) : Nat × Nat × Nat × Nat :=
-  let w := bndChunks[j / 32]! >>> ((j % 32) * 224)
-  (w % 2 ^ 68, (w >>> 68) % 2 ^ 44, (w >>> 112) % 2 ^ 44, (w >>> 156) % 2 ^ 68)
+/-- the 224-bit row of tie point `j`.  (Written with `Nat.div`, `Nat.mod`, `Nat.shiftRight` applied directly:
+each is a single GMP-accelerated kernel step, without the type-class unfolding of `/`, `%`, `>>>`.) -/
+def bndWord (j : Nat) : Nat := Nat.shiftRight (bndChunk (Nat.div j 64)) (Nat.mul (Nat.mod j 64) 224)
 
 /-- `yDown j / 2^SY` is a luminance whose exact code value is below `j + 1/2 - mu` -/
-def yDown (j : Nat) : Nat := (bndRow j).1
-def aDown (j : Nat) : Nat := (bndRow j).2.1
-def aUp (j : Nat) : Nat := (bndRow j).2.2.1
+def yDown (j : Nat) : Nat := Nat.mod (bndWord j) 0x100000000000000000
+def aDown (j : Nat) : Nat := Nat.mod (Nat.shiftRight (bndWord j) 68) 0x100000000000
+def aUp (j : Nat) : Nat := Nat.mod (Nat.shiftRight (bndWord j) 112) 0x100000000000
 /-- `yUp j / 2^SY` is a luminance whose exact code value is above `j + 1/2 + mu` -/
-def yUp (j : Nat) : Nat := (bndRow j).2.2.2
+def yUp (j : Nat) : Nat := Nat.mod (Nat.shiftRight (bndWord j) 156) 0x100000000000000000
+
+/-- `withNat n f = f n`; inside the kernel (which evaluates by name) the match forces `n` to a literal once,
+instead of once per occurrence in `f` -/
+def withNat {α : Type} (n : Nat) (f : Nat → α) : α :=
+  match n with
+  | 0 => f 0
+  | k + 1 => f (k + 1)
+
+theorem withNat_eq {α : Type} (n : Nat) (f : Nat → α) : withNat n f = f n := by
+  cases n <;> rfl
 
 /-- the margin `mu = 1 / muDen` (code units) -/
 def muDen : Nat := @MUDEN@
@@ -254,46 +271,50 @@ def codeOfRat (yn yd : Nat) : Option Nat :=
   if inBracket yn yd c then some c else none
 
 /-! ## Code tables: integer nits `0..10000` and min-luminance `k/10000` nits, `k = 0..10000`
-12 bits per entry, 128 entries per chunk -/
+12 bits per entry, 256 entries per literal -/
 '''
 
 TEMPLATE_TAIL = r'''
 /-- `round (4095 · PQ (n / 10000))` for integer nits `n ≤ 10000` -/
-def codeOfNits (n : Nat) : Nat := (nitsChunks[n / 128]! >>> ((n % 128) * 12)) % 4096
+def codeOfNits (n : Nat) : Nat := Nat.mod (Nat.shiftRight (nitsChunk (Nat.div n 256)) (Nat.mul (Nat.mod n 256) 12)) 4096
 /-- `round (4095 · PQ (k / 10⁸))` for the min-luminance `k/10000` nits, `k ≤ 10000` -/
-def codeOfMinLum (k : Nat) : Nat := (minLumChunks[k / 128]! >>> ((k % 128) * 12)) % 4096
+def codeOfMinLum (k : Nat) : Nat := Nat.mod (Nat.shiftRight (minLumChunk (Nat.div k 256)) (Nat.mul (Nat.mod k 256) 12)) 4096
 
-def nitsCheck (n : Nat) : Bool := inBracket n 10000 (codeOfNits n)
-def minLumCheck (k : Nat) : Bool := inBracket k 100000000 (codeOfMinLum k)
+def nitsCheck (n : Nat) : Bool := withNat (codeOfNits n) fun c => inBracket n 10000 c
+def minLumCheck (k : Nat) : Bool := withNat (codeOfMinLum k) fun c => inBracket k 100000000 c
 
 /-! ## Rounding thresholds `50·i` nits, `i = 1..199`
-row `i` = `(floor code f, aLo, aHi)` packed 12 + 44 + 44 bits, one row per array element (element 0 unused);
+row `i` = `(floor code f, aLo, aHi)` packed 12 + 44 + 44 bits at bit `100·i` of one literal (row 0 unused);
 certificate: `f/4095 < PQ (i/200) < (f+1)/4095` -/
 @THR@
 
-def thrFloor (i : Nat) : Nat := thrRows[i]! % 4096
-def thrALo (i : Nat) : Nat := (thrRows[i]! >>> 12) % 2 ^ 44
-def thrAHi (i : Nat) : Nat := (thrRows[i]! >>> 56) % 2 ^ 44
+def thrFloor (i : Nat) : Nat := Nat.mod (Nat.shiftRight thrBig (Nat.mul i 100)) 4096
+def thrALo (i : Nat) : Nat := Nat.mod (Nat.shiftRight thrBig (Nat.add (Nat.mul i 100) 12)) 0x100000000000
+def thrAHi (i : Nat) : Nat := Nat.mod (Nat.shiftRight thrBig (Nat.add (Nat.mul i 100) 56)) 0x100000000000
 
 def thrCheck (i : Nat) : Bool :=
   certGt i 200 (thrALo i) (thrFloor i) 4095 && certLt i 200 (thrAHi i) (thrFloor i + 1) 4095
 
-/-- smallest `k ≤ top` with `c ≤ thrFloor (a·k + b)`, i.e. the exact luminance of code `c` is below the
-threshold `50·(a·k + b)` nits -/
-def roundGo (c a b top : Nat) : Nat → Nat → Nat
-  | 0, k => k
-  | fuel + 1, k => if k ≥ top then k else if c ≤ thrFloor (a * k + b) then k else roundGo c a b top fuel (k + 1)
+/-- binary search for the smallest `k ≤ hi` with `k = hi ∨ c ≤ thrFloor (a·k + b)`, i.e. the exact luminance of
+code `c` is below the threshold `50·(a·k + b)` nits.  (The result is *checked* by `round100Check` /
+`round1000Check`; the theorems do not depend on the search being right.) -/
+def roundGo (c a b : Nat) : Nat → Nat → Nat → Nat
+  | 0, lo, _ => lo
+  | fuel + 1, lo, hi =>
+    if lo ≥ hi then lo else
+    withNat ((lo + hi) / 2) fun mid =>
+      if c ≤ thrFloor (a * mid + b) then roundGo c a b fuel lo mid else roundGo c a b fuel (mid + 1) hi
 
 /-- `round (pqToNits (c/4095) / 100)`: thresholds at `100k + 50 = 50·(2k+1)` -/
-def nitsRound100 (c : Nat) : Nat := roundGo c 2 1 100 101 0
+def nitsRound100 (c : Nat) : Nat := roundGo c 2 1 8 0 100
 /-- `round (pqToNits (c/4095) / 1000)`: thresholds at `1000k + 500 = 50·(20k+10)` -/
-def nitsRound1000 (c : Nat) : Nat := roundGo c 20 10 10 11 0
+def nitsRound1000 (c : Nat) : Nat := roundGo c 20 10 5 0 10
 
 def round100Check (c : Nat) : Bool :=
-  let k := nitsRound100 c
+  withNat (nitsRound100 c) fun k =>
   decide (k ≤ 100) && (k == 0 || decide (thrFloor (2 * k - 1) < c)) && (k == 100 || decide (c ≤ thrFloor (2 * k + 1)))
 def round1000Check (c : Nat) : Bool :=
-  let k := nitsRound1000 c
+  withNat (nitsRound1000 c) fun k =>
   decide (k ≤ 10) && (k == 0 || decide (thrFloor (20 * k - 10) < c)) && (k == 10 || decide (c ≤ thrFloor (20 * k + 10)))
 
 end Dovi.PqTable
@@ -329,12 +350,12 @@ def main():
                     raise SystemExit("threshold %d: certificate does not check" % i)
     out = []
     out.append(TEMPLATE_HEAD.replace("@KT@", str(KT)).replace("@SY@", str(SY)))
-    out.append(lean_array("bndChunks", pack(bnd, [68, 44, 44, 68], 32), "packed tie-point rows"))
+    out.append(lean_chunked("bndChunk", bnd, [68, 44, 44, 68], 64, "packed tie-point rows"))
     out.append(TEMPLATE_MID.replace("@MUDEN@", str(MU_DEN)))
-    out.append(lean_array("nitsChunks", pack([(c,) for c in nits], [12], 128), "packed codes of the integer nits 0..10000"))
+    out.append(lean_chunked("nitsChunk", [(c,) for c in nits], [12], 256, "packed codes of the integer nits 0..10000"))
     out.append("")
-    out.append(lean_array("minLumChunks", pack([(c,) for c in minlum], [12], 128), "packed codes of k/10000 nits, k = 0..10000"))
-    out.append(TEMPLATE_TAIL.replace("@THR@", lean_array("thrRows", pack(thr, [12, 44, 44], 1), "packed threshold rows")))
+    out.append(lean_chunked("minLumChunk", [(c,) for c in minlum], [12], 256, "packed codes of k/10000 nits, k = 0..10000"))
+    out.append(TEMPLATE_TAIL.replace("@THR@", "/-- packed threshold rows -/\ndef thrBig : Nat :=\n  0x%x" % pack(thr, [12, 44, 44], len(thr))[0]))
     open(OUT, "w").write("\n".join(out))
     print("wrote %s (%d bytes)" % (OUT, os.path.getsize(OUT)), file=sys.stderr)
 
